@@ -695,7 +695,7 @@ class Table(Vector):
 				return self._underlying[key]
 			return Row(self, key)
 
-		if isinstance(key, Vector) and key.schema().kind == bool and not key.schema().nullable:
+		if isinstance(key, Vector) and key.schema() is not None and key.schema().kind == bool and not key.schema().nullable:
 			assert (len(self) == len(key))
 			return Vector(tuple(x[key] for x in self._underlying),
 				dtype = self._dtype
@@ -712,7 +712,7 @@ class Table(Vector):
 			)
 
 		# NOT RECOMMENDED
-		if isinstance(key, Vector) and key.schema().kind == int and not key.schema().nullable:
+		if isinstance(key, Vector) and key.schema() is not None and key.schema().kind == int and not key.schema().nullable:
 			if len(self) > 1000:
 				warnings.warn('Subscript indexing is sub-optimal for large vectors; prefer slices or boolean masks')
 			return Vector(tuple(x[key] for x in self._underlying),
